@@ -188,10 +188,24 @@ def eval_doc(placed, version):
     return {"load": "ok" if r[0] == "ok" else r[1]}
 
 
+IDENT_EXTRA = [dict(POOL[0], subvariant=""), dict(POOL[0], disc_number=0), dict(POOL[0], subvariant="", disc_number=0, arch="src"),
+               dict(POOL[8], subvariant="")]
+
+
+def eval_doc_same_path(first, second, version):
+    """two entries in different cells: equal identity, different checksums, and the very same path"""
+    import productmd.images as pi
+    doc = doc_of([("Server", "x86_64", first), ("Client", "x86_64", second)])
+    doc["payload"]["images"]["Client"]["x86_64"][0]["path"] = POOL[first]["path"]
+    doc["header"]["version"] = version
+    r = call(pi.Images().loads, json.dumps(doc))
+    return {"load": "ok" if r[0] == "ok" else r[1]}
+
+
 def eval_identify(i, drop):
     import productmd.images as pi
     im = pi.Images()
-    img = B.mk_image(im, POOL[i])
+    img = B.mk_image(im, (POOL + IDENT_EXTRA)[i])
     lst = []
     img.serialize(lst)
     d = dict(lst[0])
@@ -240,9 +254,19 @@ def units(tier, seed):
 
 def run_unit(unit, acc):
     if unit[0] == "identify":
-        for i in range(len(POOL)):
+        for ver in ("1.1", "1.2", "2.0"):
+            for first, second in ((0, 2), (9, 11)):
+                o = eval_doc_same_path(first, second, ver)
+                acc.ev()
+                if o["load"] == "ok":
+                    acc.violation("document-same-path", {"kind": "docpath", "first": first, "second": second, "version": ver}, o,
+                                  "a %s document listing one path twice (cells Server/x86_64 and Client/x86_64) with equal identity and "
+                                  "different checksums was loaded" % ver)
+                else:
+                    acc.outcome("doc:rejected")
+        for i in range(len(POOL) + len(IDENT_EXTRA)):
             for drop in (False, True):
-                if drop and POOL[i]["unified"]:
+                if drop and (POOL + IDENT_EXTRA)[i]["unified"]:
                     continue
                 o = eval_identify(i, drop)
                 acc.ev()
@@ -304,6 +328,8 @@ def replay(case):
         return eval_hist(case["header"], case["hist"])
     if case["kind"] == "doc":
         return eval_doc(case["placed"], case["version"])
+    if case["kind"] == "docpath":
+        return eval_doc_same_path(case["first"], case["second"], case["version"])
     return eval_identify(case["i"], case["drop"])
 
 
